@@ -1,17 +1,4 @@
 #!/bin/sh
 # Builds the framework offline from files on disk: the translator output, the Lean library
 # (models, proofs) with the native driver, and the Go harness binaries.
-set -e
-cd "$(dirname "$0")"
-export GOFLAGS=-mod=mod GOPROXY=off
-unset GOTOOLCHAIN GOSUMDB || true
-mkdir -p .build evidence
-cp /repo/go.sum harness/go.sum
-(cd harness && go run ./extract -repo /repo -out ../lean/HopModel/HopModel/Generated -facts ../.build/facts.json)
-(cd lean/HopModel && lake build)
-for d in harness/cmd/*/; do
-  n=$(basename "$d")
-  N=$(echo "$n" | tr 'c' 'C')
-  (cd harness && go build -tags verif -o ../.build/hv-$N ./cmd/$n) || echo "setup: harness $n does not build (its check will report it)"
-done
-echo setup done
+cd "$(dirname "$0")" && mkdir -p .build evidence && exec ./check setup
